@@ -58,6 +58,24 @@ Proof.
     destruct (s_trailer s <? _) eqn:E2; [discriminate|]. apply N.ltb_ge in E2. split; assumption.
 Qed.
 
+(* PackScanner: an index whose object count does not fit the file is rejected at load time *)
+Lemma scan_load_fits hs idx rev s :
+  scan_load hs idx rev = Ok s ->
+  s_off64 s <= s_trailer s /\ s_trailer s + 2 * N.of_nat hs = blen idx /\ S_IDXMIN <= blen idx.
+Proof.
+  unfold scan_load.
+  destruct (negb (valid_file rev S_REVVER S_REVSIG S_REVMIN)); [discriminate|].
+  destruct (valid_file idx S_IDXVER S_IDXSIG S_IDXMIN) eqn:Ev; [|discriminate]. cbn [negb]. cbv zeta.
+  set (cnt := get32 (skipn (N.to_nat (S_HDR + S_FANOUT - 4)) idx)).
+  match goal with |- context [if ?c then _ else _] => destruct c eqn:Ec end; [discriminate|].
+  intros E. injection E as <-. cbv beta iota delta [s_off64 s_trailer]. apply N.ltb_ge in Ec.
+  unfold valid_file in Ev. apply andb_true_iff in Ev. destruct Ev as [Ev _]. apply andb_true_iff in Ev.
+  destruct Ev as [Ev _]. apply N.leb_le in Ev.
+  change (S_HDR + S_FANOUT) with 1032 in *.
+  clearbody cnt. repeat split; try assumption.
+  change (match N.of_nat hs with 0 => 0 | N.pos q => N.pos q~0 end) with (2 * N.of_nat hs). lia.
+Qed.
+
 Section Basic.
 Variable hs : nat.
 Variable Hsz : nat -> bytes -> bytes.
@@ -153,24 +171,6 @@ Proof.
   destruct (take _ r8) as [[sum r9]|]; [|discriminate].
   destruct (negb (bytes_eqb sum _)); [discriminate|].
   inversion E; subst; cbn [m_fanout]. exact Hs.
-Qed.
-
-(* PackScanner: an index whose object count does not fit the file is rejected at load time *)
-Lemma scan_load_fits idx rev s :
-  scan_load hs idx rev = Ok s ->
-  s_off64 s <= s_trailer s /\ s_trailer s + 2 * N.of_nat hs = blen idx /\ S_IDXMIN <= blen idx.
-Proof.
-  unfold scan_load.
-  destruct (negb (valid_file rev S_REVVER S_REVSIG S_REVMIN)); [discriminate|].
-  destruct (valid_file idx S_IDXVER S_IDXSIG S_IDXMIN) eqn:Ev; [|discriminate]. cbn [negb]. cbv zeta.
-  set (cnt := get32 (skipn (N.to_nat (S_HDR + S_FANOUT - 4)) idx)).
-  match goal with |- context [if ?c then _ else _] => destruct c eqn:Ec end; [discriminate|].
-  intros E. injection E as <-. cbv beta iota delta [s_off64 s_trailer]. apply N.ltb_ge in Ec.
-  unfold valid_file in Ev. apply andb_true_iff in Ev. destruct Ev as [Ev _]. apply andb_true_iff in Ev.
-  destruct Ev as [Ev _]. apply N.leb_le in Ev.
-  change (S_HDR + S_FANOUT) with 1032 in *.
-  clearbody cnt. repeat split; try assumption.
-  change (match N.of_nat hs with 0 => 0 | N.pos q => N.pos q~0 end) with (2 * N.of_nat hs). lia.
 Qed.
 
 End Basic.
